@@ -277,6 +277,51 @@ def _grad_env(F_scalar=True):
     return ld, scf, at, pots, dft
 
 
+def sym_Q():
+    """Q(B, U) is the solution of the Sylvester equation X sqrt(U) + sqrt(U) X = B for a Hermitian positive definite U (the
+    operator of the differential of U^-1/2, Comput. Phys. Commun. 128, 1); the real code uses V^H ... V, which requires the
+    eigenvectors it asks for to be orthonormal."""
+    ld = H.make_loader()
+    dft = ld.load("eminus.dft")
+    for kind in ("generic", "antihermitian"):
+        nc.new_ctx()
+        u = nc.ctx().atom("U", NST, NST, herm=True)
+        U = NArr(NC.of(u), (NST, NST))
+        root = NArr(nc.sqrtm(U.val), (NST, NST))
+        b = nc.ctx().atom("B", NST, NST)
+        B = NArr(NC.of(b), (NST, NST))
+        if kind == "antihermitian":
+            B = B - B.conj().T
+        q = dft.Q(B, U)
+        lhs = q @ root + root @ q
+        if not same(lhs, B):
+            return False, f"Q(B,U) sqrt(U) + sqrt(U) Q(B,U) != B ({kind} B): residual {nc.normalise((lhs - B).val)!r}"[:600]
+    return True, ""
+
+
+def nat_Q(rng):
+    """U = W^H W for orthonormal W (the identity up to round-off: where every SCF starts) and a generic U."""
+    from scipy.linalg import sqrtm
+
+    from eminus.dft import Q
+
+    worst = 0.0
+    for trial in range(20):
+        n = 5
+        if trial % 2 == 0:
+            Wm, _ = np.linalg.qr(rnd(rng, 40, n))
+            U = Wm.conj().T @ Wm
+        else:
+            M = rnd(rng, n, n)
+            U = M.conj().T @ M + np.eye(n)
+        Bm = rnd(rng, n, n)
+        Bm = Bm - Bm.conj().T
+        q = np.asarray(Q(Bm, U))
+        r = sqrtm(U)
+        worst = max(worst, np.abs(q @ r + r @ q - Bm).max() / np.abs(Bm).max())
+    return worst
+
+
 def sym_grad_span_orthogonal():
     ld, scf, at, pots, dft = _grad_env()
     W = [H.W_stack("W", ik, 2) for ik in range(2)]
@@ -289,6 +334,140 @@ def sym_grad_span_orthogonal():
             if not same(inner(w, g), zero(NST, NST)):
                 return False, f"W^H grad != 0 for constant fillings (ik={ik}, spin={s}): {nc.normalise(inner(w, g).val)!r}"
     return True, ""
+
+
+def sym_grad_formula():
+    """General (non-constant, diagonal) fillings F, generic W: the two components of the gradient that follow from the
+    derivative of E = sum_k wk tr(F Y^H H Y), Y = W U^-1/2, at fixed H (assumed lemma 'dftpp-gradient'):
+      * directions D orthogonal to the span (W^H O D = 0) change Y by D U^-1/2:
+            (1 - O W U^-1 W^H) g = wk (1 - O W U^-1 W^H) H W U^-1/2 F U^-1/2
+      * directions D = W A rotate Y by a unitary whose generator solves a Sylvester equation (C01.Q.sylvester_equation):
+            W^H g = wk U^1/2 Q([Ht, F]),   Ht = U^-1/2 W^H H W U^-1/2
+    Both carry the k-point weight."""
+    ld, scf, at, pots, dft = _grad_env()
+    for ik in range(2):
+        for s in range(2):
+            fa = nc.ctx().atom(f"F{ik}{s}", NST, NST, herm=True, diag=True, real=True)
+            at.occ.F[ik][s] = NArr(NC.of(fa), (NST, NST))
+            at.occ.f[ik][s] = H.FVec(False)
+    W = [H.W_stack("W", ik, 2) for ik in range(2)]
+    for ik in range(2):
+        for s in range(2):
+            g = dft.get_grad(scf, ik, s, W)
+            w = W[ik].parts[s]
+            F = at.occ.F[ik][s]
+            OW = at.O(w)
+            U = inner(w, OW)
+            iU = NArr(nc.inv(U.val), (NST, NST))
+            U12 = NArr(nc.sqrtm(iU.val), (NST, NST))
+            HW = dft.H(scf, ik, s, W)
+            P = lambda x: x - OW @ iU @ inner(w, x)  # noqa: E731
+            lhs = P(g)
+            rhs = P(HW @ U12 @ F @ U12) * at.kpts.wk[ik]
+            if not same(lhs, rhs):
+                return False, f"component of the gradient orthogonal to the span is not wk (1-P) H W U^-1/2 F U^-1/2 (ik={ik}, spin={s})"
+            Ht = U12 @ inner(w, HW) @ U12
+            comm = Ht @ F - F @ Ht
+            rootU = NArr(nc.sqrtm(U.val), (NST, NST))
+            want = rootU @ dft.Q(comm, U) * at.kpts.wk[ik]
+            if not same(inner(w, g), want):
+                return False, (f"W^H g != wk U^1/2 Q([Ht, F]) (ik={ik}, spin={s}): the rotation part of the gradient for non-constant fillings is wrong: "
+                               f"{nc.normalise((inner(w, g) - want).val)!r}")[:700]
+    return True, ""
+
+
+def sym_grad_occ_formula():
+    """Band minimisation at orthonormal coefficients: g = wk (1 - O Y Y^H) H Y (derivative of sum_k wk tr(Y^H H Y), Y = orth(W))."""
+    ld, scf, at, pots, dft = _grad_env()
+    bm = ld.load("eminus.band_minimizer")
+    bm.H = dft.H
+    W = [H.W_stack("W", ik, 2) for ik in range(2)]
+    for ik in range(2):
+        for s in range(2):
+            y = list(W[ik].parts[s].val.t)[0][0]
+            nc.ctx().rule((y.dagger(), y), NC({(): A.ONE / at.Omega}, NST, NST))
+    bm.orth = lambda atoms, W: W  # orth(Y) = Y for orthonormal Y (C04.orth.orthonormal_idempotent_span)
+    for ik in range(2):
+        for s in range(2):
+            g = bm.get_grad_occ(scf, ik, s, W)
+            w = W[ik].parts[s]
+            HW = dft.H(scf, ik, s, W)
+            want = (HW - at.O(w) @ inner(w, HW)) * at.kpts.wk[ik]
+            if not same(g, want):
+                return False, f"get_grad_occ != wk (1 - O Y Y^H) H Y at orthonormal Y (ik={ik}, spin={s})"
+    return True, ""
+
+
+def nat_grad_occ(rng):
+    """Central-difference slope of the band energy vs 2 Re<get_grad_occ, D> at orthonormal W, weighted k-points."""
+    from eminus.band_minimizer import get_grad_occ, scf_step_occ
+    from eminus.dft import orth
+
+    scf, at = _native_scf(Nspin=1, xc="lda,pw")
+    scf.W = orth(at, [rnd(rng, 1, len(at.Gk2c[ik]), at.occ.Nstate) for ik in range(at.kpts.Nk)])
+    scf._precompute()
+    W0 = [np.asarray(w) for w in scf.W]
+    D = [rnd(rng, *w.shape) for w in W0]
+    D = [d * np.linalg.norm(w) / np.linalg.norm(d) for w, d in zip(W0, D)]
+
+    def E(t):
+        return scf_step_occ(scf, [w + t * d for w, d in zip(W0, D)])
+
+    h = 1e-3
+    slope = (8 * (E(h) - E(-h)) - (E(2 * h) - E(-2 * h))) / (12 * h)
+    lin = 0
+    for ik in range(at.kpts.Nk):
+        g = get_grad_occ(scf, ik, 0, W0, **scf._precomputed)
+        lin += 2 * np.real(np.sum(np.asarray(g).conj() * D[ik][0]))
+    return abs(slope - lin) / max(1.0, abs(slope))
+
+
+def nat_grad_nonconstant(rng):
+    """Non-constant fillings (smearing with extra bands), two k-points with unequal weights, W orthonormal (even seeds) or
+    strongly non-orthonormal (odd seeds): central-difference slope of the total energy vs 2 Re<get_grad, D>."""
+    import eminus
+    from eminus import SCF, Atoms
+    from eminus.dft import get_grad, guess_random, orth
+    from eminus.energies import get_E
+    from eminus.minimizer import scf_step
+
+    eminus.config.backend = "numpy"
+    eminus.config.verbose = "critical"
+    at = Atoms(["Li", "Li"], [[0.1, 0.2, 0.3], [0.3, 0.1, 4.4]], ecut=3, a=[[7.0, 0.3, 0.1], [0.2, 7.5, 0.4], [0.5, 0.1, 9.0]])
+    at.s = [9, 9, 11]
+    at.occ.smearing = 0.05
+    at.occ.bands = 5
+    at.set_k([[0.0, 0.0, 0.0], [0.2, 0.1, 0.0]], [0.3, 0.7])
+    scf = SCF(at, xc="lda,vwn", verbose="critical")
+    at = scf.atoms
+    scf.W = guess_random(scf)
+    scf_step(scf, 0)
+    W = [np.array(w) for w in scf.W]
+    if int(rng.integers(2)) == 0:
+        W = [np.array(w) for w in orth(at, W)]
+    else:
+        W = [w @ (np.eye(w.shape[-1]) + 0.3 * rnd(rng, w.shape[-1], w.shape[-1])) for w in W]
+    D = [rnd(rng, *w.shape) for w in W]
+    D = [d * np.linalg.norm(w) / np.linalg.norm(d) for w, d in zip(W, D)]
+
+    def E(t):
+        scf.W = [w + t * d for w, d in zip(W, D)]
+        scf._precompute()
+        return get_E(scf)
+
+    scf.W = [w.copy() for w in W]
+    scf._precompute()
+    ana = 0.0
+    for ik in range(at.kpts.Nk):
+        for sp in range(at.occ.Nspin):
+            g = np.asarray(get_grad(scf, ik, sp, scf.W, **scf._precomputed))
+            ana += 2 * np.real(np.vdot(g, D[ik][sp]))
+    h = 1e-3
+    num = (8 * (E(h) - E(-h)) - (E(2 * h) - E(-2 * h))) / (12 * h)
+    f = np.asarray(at.occ.f)
+    if np.all(f == f[..., :1]):
+        return 1.0  # the scenario must have non-constant fillings
+    return abs(ana - num) / max(1e-12, abs(num))
 
 
 def sym_grad_homogeneous():
@@ -436,15 +615,18 @@ def nat_Ecoul(rng):
     from eminus.energies import get_Ecoul
 
     at = native_atoms(Nk=1)
-    n = rng.random(at.Ns)
-    E = get_Ecoul(at, n)
-    nG = np.fft.fftn(n.reshape(at.s)).ravel()
-    with np.errstate(divide="ignore"):
-        w = np.where(at.G2 > 0, 1 / at.G2, 0)
-    want = 2 * np.pi * at.Omega / at.Ns**2 * np.sum(w * np.abs(nG) ** 2)
-    e = abs(E - want) / max(1, abs(want))
-    e = max(e, abs(get_Ecoul(at, 3 * n) - 9 * E) / max(1, abs(E)))
-    return max(e, 0.0 if E >= 0 else 1.0)
+    e = 0.0
+    # the property quantifies over all REAL fields: a positive density and a sign-changing field
+    for n in (rng.random(at.Ns), rng.standard_normal(at.Ns)):
+        E = get_Ecoul(at, n)
+        nG = np.fft.fftn(n.reshape(at.s)).ravel()
+        with np.errstate(divide="ignore"):
+            w = np.where(at.G2 > 0, 1 / at.G2, 0)
+        want = 2 * np.pi * at.Omega / at.Ns**2 * np.sum(w * np.abs(nG) ** 2)
+        e = max(e, abs(E - want) / max(1, abs(want)))
+        e = max(e, abs(get_Ecoul(at, -3 * n) - 9 * E) / max(1, abs(E)))
+        e = max(e, 0.0 if E >= 0 else 1.0)
+    return e
 
 
 def _register():
@@ -466,6 +648,14 @@ def _register():
          N_ + ("sqrtm", "inv", "callee-contract"), "for constant fillings F = f 1 the gradient is orthogonal to the span: W^H get_grad = 0 (H, Q by contract)"),
         ("C01", "C01.get_grad.homogeneous_in_f_wk", sym_grad_homogeneous, nat_grad_span, [f"{dft}:get_grad"], N_ + ("callee-contract",),
          "get_grad is proportional to f * wk (degree-one homogeneity; half fillings give half the gradient)"),
+        ("C01", "C01.get_grad.analytic_components", sym_grad_formula, nat_grad_nonconstant, [f"{dft}:get_grad", "eminus.operators:O"],
+         N_ + ("sqrtm", "inv", "callee-contract", "dftpp-gradient"),
+         "general diagonal fillings: (1-P) g = wk (1-P) H W U^-1/2 F U^-1/2 and W^H g = wk U^1/2 Q([Ht, F]) (both derived from dE at fixed H)"),
+        ("C01", "C01.get_grad_occ.analytic", sym_grad_occ_formula, nat_grad_occ, ["eminus.band_minimizer:get_grad_occ"],
+         N_ + ("sqrtm", "inv", "callee-contract", "dftpp-gradient"),
+         "band minimisation at orthonormal Y: get_grad_occ = wk (1 - O Y Y^H) H Y, the derivative of sum_k wk tr(Y^H H Y)"),
+        ("C01", "C01.Q.sylvester_equation", sym_Q, nat_Q, [f"{dft}:Q"], N_ + ("sqrtm", "eigh", "sylvester-division"),
+         "Q(B, U) sqrt(U) + sqrt(U) Q(B, U) = B for Hermitian positive definite U (needs ORTHONORMAL eigenvectors: eigh contract; the eig contract only gives invertible ones)"),
         ("C11", "C11.get_phi.poisson_zero_mean_linear", sym_phi, nat_phi, [f"{dft}:get_phi", "eminus.operators:Linv", "eminus.operators:L",
                                                                         "eminus.operators:J", "eminus.operators:O"], N_ + ("fft",),
          "L(phi) = -4 pi O J (n - mean n); phi has zero mean; linear in n; |G|^2 phi_G = 4 pi n_G for every G != 0"),
@@ -556,6 +746,20 @@ def _register_bounded():
                             doc="BOUNDED stand-in: derivative relation on sampled non-orthonormal W (triclinic cell, 2 k-points)"))
 
 
+def _register_bounded2():
+    register(Obligation(name="C01.total_energy.slope_eq_2Re_grad_D.smeared_weighted_k", prop="C01", engine="B", bounded=True,
+                        functions=["eminus.dft:get_grad", "eminus.dft:Q", "eminus.dft:H", "eminus.energies:get_E"],
+                        run=BoundedNative(nat_grad_nonconstant, 2, tol=1e-6,
+                                          what="slope of the total energy vs 2 Re<grad, D>: smeared fillings with empty states, k-weights (0.3, 0.7), orthonormal and non-orthonormal W"),
+                        budget={"quick": 300, "thorough": 900},
+                        doc="BOUNDED stand-in: derivative relation for non-constant fillings and unequal k-point weights (Li2, triclinic cell, odd grid)"))
+    register(Obligation(name="C01.band_energy.slope_eq_2Re_grad_occ_D", prop="C01", engine="B", bounded=True,
+                        functions=["eminus.band_minimizer:get_grad_occ", "eminus.band_minimizer:scf_step_occ"],
+                        run=BoundedNative(nat_grad_occ, 2, tol=2e-6, what="slope of the band energy vs 2 Re<get_grad_occ, D> at orthonormal W, two k-points"),
+                        budget={"quick": 200, "thorough": 900},
+                        doc="BOUNDED stand-in: band-energy derivative relation at orthonormal coefficients (fixed Hamiltonian)"))
+
+
 def nat_hermitian_even_grid_gga(rng):
     """H on the default (even) FFT grid with a GGA: |<a|Hb> - <Ha|b>| relative to |<a|Hb>|."""
     import eminus
@@ -584,4 +788,5 @@ def _register_even_grid():
 
 
 _register_bounded()
+_register_bounded2()
 _register_even_grid()
